@@ -222,6 +222,9 @@ def tasks(tier, seed):
     ts = []
     for i, c in enumerate(cfgs):
         # split the alphabet of the first transmission over tasks (first-level path prefixes in parallel)
+        if tier == "thorough":
+            # depth 3 (retries=2) with the 8-kind alphabet, depth <= 2 with the full 12-kind alphabet
+            alphabet = ALPHABET_QUICK if c["retries"] >= 2 else ALPHABET
         for k0 in alphabet:
             if c["retries"] >= 1:
                 # heavy first kinds: also pin the kind of the second transmission (more, smaller tasks)
@@ -326,7 +329,7 @@ def evidence_meta(tier):
         "rule": "one state = one path of Inverter._read_from_socket(read command) on the real asyncio transports in the "
                 "virtual world; per transmission the peer's kind is enumerated over the alphabet and its delays are "
                 "symbolic integers, ordered against the library's timers by the solver inside the real heap code",
-        "bounds": {"transmissions": "retries+1 <= 2 (quick) / 3 (thorough), one request", "alphabet": ALPHABET,
+        "bounds": {"transmissions": "retries+1 <= 2 (quick) / 3 (thorough), one request", "alphabet": ALPHABET, "alphabet_depth3": ALPHABET_QUICK,
                    "delays": "0..2T+1 ticks (symbolic)", "timeout_T": "2, 3 ticks", "retries": "0, 1 (quick) / up to 2 (thorough)",
                    "tcp_connect": "ok after 0..2 ticks, refused, unreachable, never",
                    "hard_cap": "transmissions > retries+3 or virtual time beyond (retries+3)(T+6)+4T abort the path as a violation"},
